@@ -52,6 +52,11 @@ Definition f64_le (x y : f64) : bool :=
 
 Definition f64_zero : f64 := BinarySingleNaN.B754_zero false.
 (* the constants of the Go source; all exactly representable *)
-Definition f64_1_5 : f64 := BinarySingleNaN.binary_normalize 53 1024 _ _ mode_NE 3 (-1) false.
-Definition f64_1000 : f64 := f64_of_int 1000.
-Definition f64_second : f64 := f64_of_int 1000000000.   (* float64(time.Second) *)
+Definition f64_1_5 : f64 :=
+  @BinarySingleNaN.B754_finite 53 1024 false 6755399441055744 (-52) (eq_refl true).
+(* 1000 = 8796093022208000 * 2^-43 *)
+Definition f64_1000 : f64 :=
+  @BinarySingleNaN.B754_finite 53 1024 false 8796093022208000 (-43) (eq_refl true).
+(* float64(time.Second) = 1e9 = 8388608000000000 * 2^-23 *)
+Definition f64_second : f64 :=
+  @BinarySingleNaN.B754_finite 53 1024 false 8388608000000000 (-23) (eq_refl true).
